@@ -20,6 +20,9 @@ def check(ctx):
     core3.exclusive_with(ctx, "C07")
     core3.ctrl_path_builder(ctx, "C07")
     core2.mgr_scheduler_per_component(ctx, "C07")
+    from . import core9
+
+    core9.validated_arguments_run_independent(ctx, "C07")
 
 
 MUTANTS = [
